@@ -281,7 +281,18 @@ func judge(c *mcx.Ctx, cs Case) (obs, sig, class string) {
 			if first == nil {
 				return "encoding does not apply", "", "skip"
 			}
-			if err, pan := load(&k, c, first, "LoadKeyReaderDefaults", nil); err != nil || pan != "" {
+			if cs.Framing == "other-key-edited-in-place" {
+				// the earlier load went into ANOTHER key object, whose list of hash algorithms the caller then
+				// overwrote element by element (as decoding a key description into it would): nothing of that
+				// may reach a key loaded afterwards
+				var other intoto.Key
+				if err, pan := load(&other, c, first, "LoadKeyReaderDefaults", nil); err != nil || pan != "" {
+					return "first load failed", "", "skip"
+				}
+				for i := range other.KeyIDHashAlgorithms {
+					other.KeyIDHashAlgorithms[i] = "sha512"
+				}
+			} else if err, pan := load(&k, c, first, "LoadKeyReaderDefaults", nil); err != nil || pan != "" {
 				return "first load failed", "", "skip"
 			}
 		}
@@ -491,6 +502,7 @@ func enumerate(thorough bool, emit func(Case)) {
 				for _, eb := range encodings {
 					emit(Case{Part: "history", Key: b, Enc: eb, Framing: "plain", API: "LoadKeyReaderDefaults", Then: []string{a, ea}})
 					emit(Case{Part: "history", Key: b, Enc: eb, Framing: "plain", API: "LoadKeyReader", Param: "explicit-valid-one-algorithm", Then: []string{a, ea}})
+					emit(Case{Part: "history", Key: b, Enc: eb, Framing: "other-key-edited-in-place", API: "LoadKeyReaderDefaults", Then: []string{a, ea}})
 				}
 			}
 		}
